@@ -56,7 +56,7 @@ enum { T_PAIR, T_FILTER, T_FILTER2, T_SOCK, T_CONNECT, T_TLS };
 enum { F_NULL, F_IDENT, F_XOR, F_NEEDMORE };
 static int g_type, g_filt, g_opts, g_depth, g_tls;     /* g_tls: 0 none, 1 openssl, 2 mbedtls */
 static const char *g_tname = "pair";
-static int g_final = 1, g_big = 70000;
+static int g_final = 1, g_big = 60000;
 
 #define PATLEN (1u << 20)
 static unsigned char *pat[2];           /* pat[e][i] = byte i of the stream that arrives AT end e */
@@ -79,6 +79,7 @@ struct endctx {
 	int wr_closed;                        /* application finished writing at this end (FINISHED flush / SHUT_WR) */
 	size_t closed_at;                     /* bytes of this end's stream that count as "written before the shutdown" */
 	int rd_finished_flush;                /* this end did flush(EV_READ, FINISHED) */
+	int did_rflush;                       /* this end did flush(EV_READ, FLUSH|FINISHED) on a filter */
 	int conserve_off;                     /* stop the conservation check for the stream arriving here */
 	size_t arrived_at_eof; int eof_seen;
 	/* C18 */
@@ -99,7 +100,7 @@ struct endctx {
 };
 static struct endctx E[2];                /* arena: never freed, so a late callback is detected without ASan */
 static struct event_base *base;
-static int loop_cbs, loop_broke, in_loop, in_nudge;
+static int loop_cbs, loop_broke, in_loop;
 static int listener_fd = -1, listener_port, refused_port, accepted_fd = -1;
 static int connect_state;                 /* 0 none, 1 started ok-target, 2 started refused-target */
 
@@ -107,6 +108,12 @@ enum { P_ALL, P_ONE, P_LEAVE, P_FREE_SELF_RD, P_FREE_PEER_RD, P_FREE_SELF_EV, P_
 static const char *polname[] = { "all", "one", "leave", "freeself@rd", "freepeer@rd", "freeself@ev", "freeself@wr" };
 
 #define KEY(buf, fmt, ...) char buf[160]; snprintf(buf, sizeof buf, fmt, __VA_ARGS__)
+static int g_prop = 17;
+/* every monitor runs in every check, but a check only reports the failures of its own property
+ * (keys "C17/..", "C18/..", "C19/.."); hygiene, harness and crash keys are always reported */
+#define mc_fail(key, ...) do { const char *k_ = (key); \
+	if (k_[0] == 'C' && k_[1] == '1' && k_[3] == '/' && (k_[2] - '0') + 10 != g_prop) { MC_COUNT("other_property_monitor_hits"); } \
+	else (mc_fail)(k_, __VA_ARGS__); } while (0)
 
 static const char *tname(void) { return g_tname; }
 
@@ -218,6 +225,21 @@ filt_cb(struct evbuffer *src, struct evbuffer *dst, ev_ssize_t lim, enum buffere
 /* ------------------------------------------------------------------ observation (C17 content, C18 growth) */
 static struct endctx *peer_of(struct endctx *c) { return &E[1 - c->id]; }
 
+/* where are the bytes of the stream into c that have not reached c's input yet?  (first non-empty buffer
+ * seen from the receiver) — part of failure keys so that different causes get different keys */
+static const char *stuck_where(struct endctx *c)
+{
+	struct endctx *p = peer_of(c);
+	static char buf[48];
+	for (int i = 1; i < c->nstack; i++) if (evbuffer_get_length(c->stack[i]->input)) {
+		snprintf(buf, sizeof buf, "in-receiver-layer%d-input%s", i, c->did_rflush ? "+rflush" : ""); return buf; }
+	if (g_type == T_SOCK && sock_inq(c->fd) > 0) return "in-kernel";
+	if (p->freed) return "peer-freed";
+	for (int i = p->nstack - 1; i >= 0; i--) if (evbuffer_get_length(p->stack[i]->output)) {
+		snprintf(buf, sizeof buf, "in-sender-layer%d-output", i); return buf; }
+	return "nowhere";
+}
+
 static void forget_writecb_tracking(struct endctx *c);
 
 static void observe_end(struct endctx *c, const char *where)
@@ -236,8 +258,8 @@ static void observe_end(struct endctx *c, const char *where)
 		mc_fail(k, "%s: end %d input differs from the written stream at stream offset %zu (buffer offset %zu, len %zu)",
 		    where, c->id, c->rd_total + bad, bad, len);
 	}
-	if (c->eof_seen && c->rd_total + len > c->arrived_at_eof && !in_nudge) {
-		KEY(k, "C19/data-after-eof/%s", tname());
+	if (c->eof_seen && c->rd_total + len > c->arrived_at_eof ) {
+		KEY(k, "C19/data-after-eof/%s%s", tname(), c->did_rflush ? "+rflush" : "");
 		mc_fail(k, "%s: end %d received %zu more bytes after EOF was reported", where, c->id, c->rd_total + len - c->arrived_at_eof);
 		c->arrived_at_eof = c->rd_total + len;
 	}
@@ -443,7 +465,7 @@ static void eventcb(struct bufferevent *bev, short what, void *arg)
 				/* the incomplete unit the NEED_MORE filter is (legitimately) holding back */
 				MC_COUNT("c17_eof_needmore_tail");
 			} else if (p->wr_closed && c->rd_total + len < p->closed_at) {
-				KEY(k, "C17/eof-before-data/%s", tname());
+				KEY(k, "C17/eof-before-data/%s/%s", tname(), stuck_where(c));
 				mc_fail(k, "end %d: EOF reported with %zu of %zu bytes delivered (consumed %zu + buffered %zu)", c->id,
 				    c->rd_total + len, p->closed_at, c->rd_total, len);
 			}
@@ -516,7 +538,7 @@ static int setup(void)
 {
 	memset(E, 0, sizeof E); nfc = 0;
 	E[0].id = 0; E[1].id = 1; E[0].fd = E[1].fd = -1;
-	loop_cbs = loop_broke = in_loop = in_nudge = 0; connect_state = 0; accepted_fd = -1;
+	loop_cbs = loop_broke = in_loop = 0; connect_state = 0; accepted_fd = -1;
 	base = event_base_new();
 	if (!base) { mc_fail("harness:no-base", "event_base_new failed"); return -1; }
 	struct bufferevent *pr[2];
@@ -729,6 +751,7 @@ static int apply(const struct op *o)
 			else { if (c->rd_finished_flush) return 0; }
 		}
 		if (o->b != BEV_NORMAL) { E[0].hw_forced = E[1].hw_forced = 1; E[0].uw_forced = E[1].uw_forced = 1; }
+		if (o->a == EV_READ && BEV_IS_FILTER(c->bev) && o->b != BEV_NORMAL) c->did_rflush = 1;
 		if (o->a == EV_READ && BEV_IS_FILTER(c->bev)) {
 			/* be_filter_flush(EV_READ) moves data into the input without a read callback
 			 * (upstream "XXX"): that data is not covered by the order oracle */
@@ -838,38 +861,24 @@ static void final_drain(void)
 		bufferevent_enable(c->bev, EV_READ | EV_WRITE);
 		c->notified_arrived = c->rd_total + in_len(c);
 	}
-	int stalled = 0;
-	for (int round = 0; round < 2; round++) {
-		for (int i = 0; i < 40; i++) {
-			size_t before = E[0].rd_total + E[1].rd_total;
-			one_loop();
-			observe_all("final-drain");
-			if (loop_broke) continue;
-			if (E[0].freed || E[1].freed) return;
-			if (E[0].rd_total + E[1].rd_total == before && i > 0) break;
-		}
-		stalled = 0;
-		for (int e = 0; e < 2; e++) {
-			struct endctx *c = &E[e], *p = peer_of(c);
-			size_t expect = (g_type == T_SOCK && p->wr_closed) ? p->closed_at : p->wr_total;
-			if (c->rd_total + in_len(c) != expect) stalled |= 1 << e;
-			else if (in_len(c)) stalled |= 4 << e;       /* data buffered but no read callback came */
-		}
-		if (!stalled || round == 1) break;
-		/* nudge: a forced flush from both sides, then try again */
-		MC_COUNT("c17_final_nudges");
-		in_nudge = 1;
-		for (int e = 0; e < 2; e++) { bufferevent_flush(E[e].bev, EV_WRITE, BEV_FLUSH); }
-		for (int e = 0; e < 2; e++) { bufferevent_flush(E[e].bev, EV_READ, BEV_FLUSH); bufferevent_trigger(E[e].bev, EV_READ, BEV_TRIG_IGNORE_WATERMARKS | BEV_TRIG_DEFER_CALLBACKS); }
+	for (int i = 0; i < 40; i++) {
+		size_t before = E[0].rd_total + E[1].rd_total;
+		one_loop();
+		observe_all("final-drain");
+		if (E[0].freed || E[1].freed) return;
+		if (loop_broke) continue;
+		if (E[0].rd_total + E[1].rd_total == before && loop_cbs == 0) break;
 	}
 	MC_COUNT("c17_final_drains");
-	if (stalled & 3) {
-		KEY(k, "C17/loss-at-tail/%s", tname());
-		mc_fail(k, "after enabling everything, removing watermarks, flushing and looping to quiescence: end0 has %zu of %zu, end1 has %zu of %zu",
-		    E[0].rd_total + in_len(&E[0]), E[1].wr_total, E[1].rd_total + in_len(&E[1]), E[0].wr_total);
+	/* Not a verdict: bytes may legitimately stay parked (output written while EV_WRITE was disabled,
+	 * data moved by flush(EV_READ) into a filter input, NEED_MORE tail).  Loss is decided by the
+	 * conservation oracle, which is exact; this only counts how often a history ends with parked bytes. */
+	for (int e = 0; e < 2; e++) {
+		struct endctx *c = &E[e], *p = peer_of(c);
+		size_t expect = (g_type == T_SOCK && p->wr_closed) ? p->closed_at : p->wr_total;
+		if (c->rd_total + in_len(c) != expect) MC_COUNT("final_parked_bytes_histories");
 	}
 }
-
 
 /* ------------------------------------------------------------------ canonical state for mc_state()
  * Soundness argument.  Two histories that reach the same canon() value have the same continuations
@@ -940,7 +949,7 @@ static int canon(uint64_t *out)
 	}
 	for (int e = 0; e < 2; e++) {
 		struct endctx *c = &E[e], *p = peer_of(c);
-		H(0xe0 + e); H(c->freed); H(c->cleared); H(c->policy); H(c->wr_closed); H(c->rd_finished_flush); H(c->conserve_off);
+		H(0xe0 + e); H(c->freed); H(c->cleared); H(c->policy); H(c->wr_closed); H(c->rd_finished_flush); H(c->did_rflush); H(c->conserve_off);
 		H(c->eof_seen); H(c->hw_forced); H(c->uw_forced); H(c->rd_low_floor); H(c->wr_low_ceil); H(c->wr_forgive);
 		H(c->wcb_due); H(c->resume_due); H(c->n_connected); H(c->cbs_before_connected > 0);
 		H(c->n_eof_r > 1 ? 2 : c->n_eof_r); H(c->n_eof_w > 1 ? 2 : c->n_eof_w);
@@ -987,8 +996,8 @@ static void teardown(void)
 	if (base) { event_base_free(base); base = NULL; }
 	if (accepted_fd >= 0) close(accepted_fd);
 	accepted_fd = -1;
-	if (mcx_alloc_live() != live0) { KEY(k, "C19/leak/%s", tname()); mc_fail(k, "%ld library allocations still live after teardown (refcount never reached zero?)", mcx_alloc_live() - live0); }
-	if (fd_sig() != fd0) { KEY(k, "C19/fdleak/%s", tname()); mc_fail(k, "fd table differs from the baseline after teardown"); }
+	if (mcx_alloc_live() != live0) { KEY(k, "leak/%s", tname()); mc_fail(k, "%ld library allocations still live after teardown (refcount never reached zero?)", mcx_alloc_live() - live0); }
+	if (fd_sig() != fd0) { KEY(k, "fdleak/%s", tname()); mc_fail(k, "fd table differs from the baseline after teardown"); }
 }
 
 static void body(void)
@@ -1084,6 +1093,7 @@ int main(int argc, char **argv)
 	if (g_type == T_FILTER) snprintf(tn, sizeof tn, "filter-%s", filt); else snprintf(tn, sizeof tn, "%s", type);
 	g_tname = tn;
 	cfg.property = !strcmp(prop, "18") ? "C18" : !strcmp(prop, "19") ? "C19" : "C17";
+	g_prop = atoi(prop);
 	const char *ops = "wepfl";
 	for (int i = 1; i + 1 < argc; i++) if (!strcmp(argv[i], "-P") && !strncmp(argv[i + 1], "ops=", 4)) ops = argv[i + 1] + 4;
 	build_alphabet(ops);
